@@ -212,10 +212,17 @@ func (c *conn) receive() (err error) {
 			body := make([]byte, length)
 			copy(body, buffer[8:])
 			if !ok {
+				// an error datagram names the call it answers: that call fails with it, the
+				// other pending calls of this client are not concerned
+				var e error = core.InvalidResponseError{Response: body}
 				if string(body) == core.RequestEntityTooLarge {
-					err = core.ErrRequestEntityTooLarge
-				} else {
-					err = core.InvalidResponseError{Response: body}
+					e = core.ErrRequestEntityTooLarge
+				}
+				if resultChan, loaded := c.loadAndDelete(index); loaded {
+					resultChan <- data{
+						Index: index,
+						Error: e,
+					}
 				}
 			} else if resultChan, loaded := c.loadAndDelete(index); loaded {
 				resultChan <- data{
